@@ -21,8 +21,14 @@ for cid in ids:
     for shards in ('16', '5'):
         cmd = [exe, 'check', cid, 'quick', '--shards', shards] + (['--cases', cases] if cases else [])
         r = subprocess.run(cmd, capture_output=True, text=True, env=dict(os.environ, VERIF_ROOT=ROOT))
-        ev = json.load(open(os.path.join(ROOT, 'evidence', f'{cid}.json')))
-        digests.append((ev['coverage']['batch_digest'], ev['coverage']['evaluations'], r.returncode))
+        # a second check of a property (C19B) records itself inside the property's file when that file is from the
+        # same tier and seed, otherwise in a file of its own
+        own = os.path.join(ROOT, 'evidence', f'{cid}.json')
+        if os.path.exists(own):
+            cov = json.load(open(own))['coverage']
+        else:
+            cov = json.load(open(os.path.join(ROOT, 'evidence', f'{cid[:3]}.json')))['coverage']['further_checks'][cid]
+        digests.append((cov['batch_digest'], cov['evaluations'], r.returncode))
     same = digests[0][:2] == digests[1][:2]
     print(f"{cid}: {'deterministic' if same else 'DIVERGED'} {digests}")
     bad += 0 if same else 1
